@@ -264,7 +264,10 @@ def base64_part(chk, model, hscan):
             alpha = bytes(perm)
         elif r.chance(1, 4):
             alpha = B64STD[:62] + bytes([r.choice(b"-_.!*"), r.choice(b",;:#@")])
-        mods = []
+        # ascii / wide act on the plaintext (it is widened BEFORE being encoded), base64 / base64wide on the encoded form
+        tw = r.choice(["", "", "wide", "ascii wide"])
+        plaintexts = ([text] if tw != "wide" else []) + ([widen(text)] if tw else [])
+        mods = [tw] if tw else []
         if plain:
             mods.append("base64" if alpha == B64STD else 'base64("%s")' % rulegen.yara_escape(alpha))
         if wide:
@@ -274,7 +277,8 @@ def base64_part(chk, model, hscan):
         for _ in range(5):
             pre = r.bytes(r.below(7))
             post = r.bytes(r.below(7))
-            t = text if r.chance(4, 5) else text[:-1] + bytes([text[-1] ^ 1])
+            pt = r.choice(plaintexts)
+            t = pt if r.chance(4, 5) else pt[:-1] + bytes([pt[-1] ^ 1])
             enc = b64enc(alpha, pre + t + post)
             if r.chance(1, 3):
                 enc = enc.rstrip(b"=")
@@ -282,22 +286,26 @@ def base64_part(chk, model, hscan):
                 enc = b"".join(bytes([c, 0]) for c in enc)
             junk = r.bytes(r.below(5))
             bufs.append(junk + enc + r.bytes(r.below(4)))
-        bufs.append(b64enc(alpha, text))
-        bufs.append(b64enc(alpha, b"x" + text) + b64enc(alpha, b"xy" + text + b"z"))
+        bufs.append(b64enc(alpha, plaintexts[0]))
+        bufs.append(b64enc(alpha, b"x" + plaintexts[-1]) + b64enc(alpha, b"xy" + plaintexts[0] + b"z"))
         cases.append(("b%d" % i, ["newcompiler", "add " + hx(src.encode()), "getrules", "scanner 0"] + ["scan " + hx(b) for b in bufs]))
-        meta["b%d" % i] = (src, text, alpha, plain, wide, bufs)
+        meta["b%d" % i] = (src, plaintexts, alpha, plain, wide, bufs)
     out, err = vlib.run_cases(hscan, cases, timeout=3000)
     q, order = [], []
     for cid, _ in cases:
-        src, text, alpha, plain, wide, bufs = meta[cid]
+        src, plaintexts, alpha, plain, wide, bufs = meta[cid]
         for bi, b in enumerate(bufs):
-            q.append("b64 %s %s %d %d %s" % ("-" if alpha == B64STD else hx(alpha), hx(text), plain, wide, hx(b)))
-            order.append((cid, bi))
+            for pi, pt in enumerate(plaintexts):
+                q.append("b64 %s %s %d %d %s" % ("-" if alpha == B64STD else hx(alpha), hx(pt), plain, wide, hx(b)))
+                order.append((cid, bi, pi))
     res, _ = vlib.run_lines(model, q, timeout=3000)
-    spec = dict(zip(order, res))
+    spec1 = dict(zip(order, res))
+    spec = {}
+    for (cid, bi, pi), v in spec1.items():          # the string occurs where the forms of any of its plaintexts stand
+        spec[(cid, bi)] = (spec.get((cid, bi), "") + ";" + v).strip(";")
     st = {"rules": 0, "rejected_at_compile_time": 0, "scans_compared": 0, "scans_equal": 0, "scans_with_matches": 0, "custom_alphabets": 0, "wide": 0}
     for cid, _ in cases:
-        src, text, alpha, plain, wide, bufs = meta[cid]
+        src, plaintexts, alpha, plain, wide, bufs = meta[cid]
         lines = out.get(cid, [])
         scans = [l for l in lines if l.startswith("scan msgs=")]
         if any(l.startswith("crash") for l in lines):
@@ -325,7 +333,7 @@ def base64_part(chk, model, hscan):
             for ent in spec[(cid, bi)].split(";"):
                 if ent:
                     o, ls = ent.split(":")
-                    sp[int(o)] = [int(x) for x in ls.split(",")]
+                    sp[int(o)] = sp.get(int(o), []) + [int(x) for x in ls.split(",")]
             st["scans_compared"] += 1
             io = [e[0] for e in impl]
             bad = None
@@ -477,7 +485,11 @@ def run(chk):
                             break
                 if bad:
                     kind = "missed" if "missed" in bad else "extra" if "extra" in bad else "lenkey"
-                    chk.violation("%s:%s" % (kind, "+".join(sorted(k for k in ("nocase", "wide", "fullword", "ascii") if m[k]) + (["xor"] if m["xor"] is not None else []))),
+                    key = "%s:%s" % (kind, "+".join(sorted(k for k in ("nocase", "wide", "fullword", "ascii") if m[k]) + (["xor"] if m["xor"] is not None else [])))
+                    if kind == "missed" and "extra" not in bad and 0 in text and m["wide"] and m["fullword"] and (m["ascii"] or m["xor"] is not None):
+                        # ascii and wide forms of a string with NUL bytes overlapping at one offset: the form tried first decides (known finding)
+                        key = "nul-string-ascii-wide-fullword"
+                    chk.violation(key,
                                   "text string %r %s on a %d-byte buffer: %s" % (text, rulegen.mods_to_words(m), len(b), bad), replay)
                 else:
                     agree += 1
